@@ -62,7 +62,20 @@ def trees(draw):
     case = {"tree": tree, "cache": draw(st.booleans()), "decisions": draw(st.lists(st.integers(0, 3), max_size=20))}
     # a history: the same process then runs a second tree built from the same Task objects; either an
     # independent one or the first with (some) exported call-time options turned into plain ones
-    nxt = draw(st.sampled_from([None, None, "independent", "unexport", "unexport"]))
+    nxt = draw(st.sampled_from([None, None, "independent", "unexport", "unexport", "alias"]))
+    if nxt == "alias":
+        # run 1: a task that exports options at definition time is called bare under an ancestor that
+        # exports another name K; run 2: the same task is given K as a plain call-time option and has
+        # a child: K must not be inherited by that child
+        k = draw(st.sampled_from(["vcpus", "flavor"]))
+        bare = lambda uid_, kids_: {"uid": uid_, "t": "xnode", "options": {}, "export": {}, "optexpr": {}, "prov": None,  # noqa: E731
+                                    "cache_scope": None, "kids": kids_}
+        leafn = lambda uid_: {"uid": uid_, "t": "node", "options": {}, "export": {}, "optexpr": {}, "prov": None,  # noqa: E731
+                              "cache_scope": None, "kids": []}
+        t1 = {"uid": 1, "t": "node", "options": {}, "export": {k: draw(vals)}, "optexpr": {}, "prov": None, "cache_scope": None,
+              "kids": [bare(2, [leafn(3)])]}
+        t2 = dict(bare(1, [leafn(2)]), options={k: draw(vals)})
+        return {"tree": t1, "then": t2, "cache": draw(st.booleans()), "decisions": draw(st.lists(st.integers(0, 3), max_size=10))}
     if nxt == "independent":
         uid[0] = 0
         case["then"] = node(draw(st.integers(1, 3)))
@@ -199,10 +212,27 @@ def oracle_one(ctx: Ctx, case, full_case):
             g, w = got.get(key), want.get(key)
             if key == "cache_scope":
                 g = CacheScope(g) if g is not None else None
+            if holds_expression(g):
+                raise Violation(f"option-not-evaluated:{key}", f"node {uid}: option {key} reached the executor holding an unevaluated "
+                                f"expression: {g!r:.120} (option values that are expressions are evaluated before use)", full_case)
             if g != w:
                 raise Violation(f"option-precedence:{key}", f"node {uid} ({find(case['tree'], uid)['t']}): option {key} = {g!r}, "
                                 f"documented precedence gives {w!r}; job options {{{', '.join(f'{k}={got.get(k)!r}' for k in KEYS)}}}", case)
     return exp
+
+
+def holds_expression(v, depth=0) -> bool:
+    from redun.expression import Expression
+
+    if isinstance(v, Expression):
+        return True
+    if depth > 6:
+        return False
+    if isinstance(v, dict):
+        return any(holds_expression(x, depth + 1) for x in list(v.keys()) + list(v.values()))
+    if isinstance(v, (list, tuple, set, frozenset)):
+        return any(holds_expression(x, depth + 1) for x in v)
+    return False
 
 
 def build(ast):
@@ -252,7 +282,7 @@ def run_case(ctx: Ctx, case) -> None:
 
 def check(ctx: Ctx) -> None:
     C.quiet_logs()
-    ctx.given(trees(), lambda c: run_case(ctx, c), ctx.n(350, 8000))
+    ctx.given(trees(), lambda c: run_case(ctx, c), ctx.n(450, 8000))
 
 
 def replay(ctx: Ctx, case) -> None:
